@@ -147,6 +147,37 @@ def gen(rng, quick, api_scripts=()):
     return ops
 
 
+def gen_vec_points(kind, rng, quick):
+    """the parallel (4-lane) point formulas of the vector backends as first-class operations (hook): every relation class"""
+    ops = [{"op": "reset"}]
+
+    def mk(reg, k, t):
+        ops.append({"op": "ed.mul_base", "in": [le(k % L)], "out": reg})
+        if t % 8:
+            ops.append({"op": "ed.torsion", "k": t % 8, "out": "TT"})
+            ops.append({"op": "ed.add", "in": [reg, "TT"], "out": reg})
+    for it in range(3 if quick else 20):
+        k, t0 = rng.randrange(1, L), rng.randrange(8)
+        mk("V0", k, t0)
+        for (k2, t2) in [(k, t0), (L - k, (8 - t0) % 8), (0, 0), (0, rng.randrange(1, 8)), (k, (t0 + 4) % 8), (rng.randrange(1, L), rng.randrange(8))] + [(k, (t0 + t) % 8) for t in (1, 2)]:
+            mk("V1", k2, t2)
+            for f in ("add", "sub", "add_neg"):
+                ops.append({"op": "vec.point", "kind": kind, "f": f, "in": ["V0", "V1"], "out": "V2"})
+                ops.append({"op": "vec.point", "kind": kind, "f": f, "in": ["V1", "V0"], "out": "V3"})
+            ops.append({"op": "vec.cached", "kind": kind, "in": ["V1"]})
+        for f in ("roundtrip", "double"):
+            ops.append({"op": "vec.point", "kind": kind, "f": f, "in": ["V0", "V0"], "out": "V2"})
+            ops.append({"op": "vec.point", "kind": kind, "f": f, "in": ["V2", "V2"], "out": "V3"})     # results feed the next operation
+        ops.append({"op": "vec.point", "kind": kind, "f": "pow2", "k": rng.randrange(1, 6), "in": ["V0", "V0"], "out": "V2"})
+    for t in range(8):
+        ops.append({"op": "ed.torsion", "k": t, "out": "V0"})
+        ops.append({"op": "ed.identity", "out": "V1"})
+        for f in ("double", "add", "sub"):
+            ops.append({"op": "vec.point", "kind": kind, "f": f, "in": ["V0", "V1"], "out": "V2"})
+            ops.append({"op": "vec.point", "kind": kind, "f": f, "in": ["V0", "V0"], "out": "V2"})
+    return ops
+
+
 def api_histories(ck, n, depth):
     """spec -> code: TLC simulates Api.tla on the toy curve; each behaviour (a sequence of API calls over a
     3-register file, with aliasing) becomes a full-size script through (k, t) -> k*B + t*T8."""
@@ -203,14 +234,19 @@ def run(ck):
         ck.mc("MC_Edwards", "MC_Edwards_109.cfg", note="order-104 curve", workers=8)
     ck.mc("MC_Api", "MC_Api_29.cfg", note="API histories over a 2-register file, order-40 curve, representation invariant along every history", workers=8)
     scripts = api_histories(ck, 40 if quick else 400, 30)
-    backends = ["s64", "v2"] if quick else ["s64", "s32", "f64", "f32", "v2", "v512"]
+    backends = ["s64", "v2", "v512"] if quick else ["s64", "s32", "f64", "f32", "v2", "v512"]
     bins = build_many([(b, True, "release", ()) for b in backends], jobs=3)
     ops = gen(ck.rng, quick, scripts)
-    sp = os.path.join(ck.workdir, "script.ndjson")
-    write_script(sp, ops)
     traces = []
     for b in backends:
         cid = cfg_id(b)
+        o = list(ops)
+        if b in ("v2", "v512"):
+            o += gen_vec_points("avx2", ck.rng, quick)
+        if b == "v512":
+            o += gen_vec_points("ifma", ck.rng, quick)
+        sp = os.path.join(ck.workdir, cid + ".script.ndjson")
+        write_script(sp, o)
         tp = os.path.join(ck.workdir, cid + ".trace.ndjson")
         run_driver(bins[cid], cid, sp, tp)
         traces.append((cid, tp))
